@@ -282,6 +282,7 @@ struct ArmPrefix {
 struct ExistentialPrefix {
     parameter: PatId,
     start: usize,
+    end: usize,
 }
 
 pub struct Parser {
@@ -354,10 +355,10 @@ impl Parser {
     ) {
         self.arm_prefixes.push(ArmPrefix { first: first.into(), payload: payload.into(), start });
     }
-    /// Record the first token of an existential parameter, whose surrounding
+    /// Record the first and last token of an existential parameter, whose surrounding
     /// parentheses are grammar-owned rather than represented by its binder.
-    pub fn existential_prefix(&mut self, parameter: PatId, start: usize) {
-        self.existential_prefixes.push(ExistentialPrefix { parameter, start });
+    pub fn existential_prefix(&mut self, parameter: PatId, start: usize, end: usize) {
+        self.existential_prefixes.push(ExistentialPrefix { parameter, start, end });
     }
     /// Retain source presentation after one public parser entry point succeeds.
     ///
@@ -421,7 +422,12 @@ impl Parser {
                 let presentation_start =
                     comments.presentation_start(prefix.parameter.into(), parameter_start);
                 let prefix_start = prefix.start.min(presentation_start);
-                Some((prefix.parameter, SourceLine(file_info.trans_span2(prefix_start).line)))
+                let occupied_end = prefix.end.saturating_sub(1).max(parameter_start);
+                Some((
+                    prefix.parameter,
+                    SourceLine(file_info.trans_span2(prefix_start).line),
+                    SourceLine(file_info.trans_span2(occupied_end).line),
+                ))
             })
             .collect::<Vec<_>>();
         self.arena.intentions.record_source_layout(
